@@ -35,17 +35,12 @@ Theorem C16_set_use_exact : forall f (l : list (str * str)) f',
 Proof. exact set_use_exact. Qed.
 Print Assumptions C16_set_use_exact.
 
-(* hypotheses are satisfiable: a file with a duplicated requirement, one request *)
+(* the hypotheses are satisfiable: a file with a duplicated requirement, one request *)
 Example C16_set_require_exact_nonvacuous :
-  let line (t : list str) := mkHL no_coms t false in
-  let f := mkEFile (mkSyn [line [B "require"; B "a.b/c"; B "v1.0.0"]; line [B "require"; B "a.b/c"; B "v1.1.0"]] 0 no_coms
-                          [SLine 0%nat; SLine 1%nat])
-                   None None None []
-                   [mkRequire (B "a.b/c") (B "v1.0.0") false (Some 0%nat); mkRequire (B "a.b/c") (B "v1.1.0") false (Some 1%nat)]
-                   [] [] [] [] [] in
-  exists f', set_require f [(B "a.b/c", B "v1.2.0", true)] = Some f'
+  distinct_paths (map req_path [(B "a.b/c", B "v1.2.0", true)]) = true /\
+  exists f', set_require example_dup_file [(B "a.b/c", B "v1.2.0", true)] = Some f'
              /\ k_require (abs (cleanup f')) = [(B "a.b/c", B "v1.2.0", true)].
-Proof. vm_compute. eexists. split; reflexivity. Qed.
+Proof. exact set_require_exact_nonvacuous. Qed.
 
 (* After SortBlocks (hence after SetRequire, SetRequireSeparateIndirect, AddTool, SetUse,
    which end with it) every block is in the order of the comparator SortBlocks selects
@@ -74,7 +69,7 @@ Theorem C16_comparators_asymmetric : forall a b,
   (toks_less a b = true -> toks_less b a = false) /\
   (exclude_less a b = true -> exclude_less b a = false) /\
   (retract_less a b = true -> retract_less b a = false).
-Proof. intros a b. split; [apply toks_less_asym | split; [apply exclude_less_asym | apply retract_less_asym]]. Qed.
+Proof. exact comparators_asymmetric. Qed.
 Print Assumptions C16_comparators_asymmetric.
 
 (* Cleanup does not change the directives a file denotes. *)
